@@ -8,7 +8,8 @@ break/continue crossing a call boundary).
 
 Scoping rules encoded (README + DESIGN.md Appendix A.1): one scope at program top; one per call
 (parent = defining scope); one per element of each `for` iteration clause; none for `for`
-guards; one per `while` iteration shared by condition and body; one per `catch` clause; none for
+guards; one per `while` iteration shared by condition and body; one per `catch` clause; one per
+`switch` arm (holding the names its pattern binds, discarded when the arm does not match); none for
 `if`, `try` body, and/or/coalesce, sequences. `:=` declares in the current scope and refuses
 redeclaration there; `=` assigns to the nearest enclosing declaration and refuses undeclared names.
 """
@@ -225,6 +226,34 @@ class Interp:
                 if e[2] != "_":
                     ee.declare(e[2], th.v)
                 return self.ev(e[3], ee)
+        if t == "switch":
+            # first arm whose pattern matches runs, in a fresh scope holding the pattern's names; no arm -> error
+            v = self.ev(e[1], env)
+            for pat, body in e[2]:
+                ee = Env(env)
+                if pat[0] == "plit":
+                    if isinstance(v, (Closure, Builtin, ErrVal)):
+                        raise Skip()
+                    if not truthy(self.binop("==", v, pat[1])):
+                        continue
+                elif pat[0] == "pname":
+                    ee.declare(pat[1], v)
+                elif pat[0] == "plistl":      # [names..., literal]: names bound so far are discarded with the arm's scope when the literal fails
+                    if not isinstance(v, list):
+                        raise Skip()
+                    if len(v) != len(pat[1]) + 1 or any(isinstance(x_, (Closure, Builtin, ErrVal)) for x_ in v) or not truthy(self.binop("==", v[-1], pat[2])):
+                        continue
+                    for n_, x_ in zip(pat[1], v):
+                        ee.declare(n_, x_)
+                elif pat[0] == "plist":
+                    if not isinstance(v, list) or len(v) != len(pat[1]):
+                        if isinstance(v, (str, ErrVal)):
+                            raise Skip()
+                        continue
+                    for n_, x_ in zip(pat[1], v):
+                        ee.declare(n_, x_)
+                return self.ev(body, ee)
+            raise Throw(ERR)
         if t == "and":
             a = self.ev(e[1], env)
             return self.ev(e[2], env) if truthy(a) else a
@@ -313,29 +342,33 @@ class Interp:
             ee = Env(f.env)
             params = f.params
             splat = [i for i, p in enumerate(params) if p[0] == "ps"]
-            nreq = sum(1 for p in params if p[0] == "p")
-            total = sum(1 for p in params if p[0] != "ps")
             n = len(args)
             vals = list(args)
-            if not splat:
-                if n < nreq or n > total:
+            # the k non-splat parameters take the n supplied values in order; parameters past the supplied ones take their
+            # defaults (evaluated in the call scope before any parameter is bound; an error if one has none); a splat takes
+            # what is left over in the middle; without a splat n may not exceed k
+            tg = [p for p in params if p[0] != "ps"]
+            k = len(tg)
+            if len(splat) > 1:
+                raise Throw(ERR)
+            if n < k:
+                if any(p[0] == "p" for p in tg[n:]):
+                    if splat and any(p[0] == "pd" for p in tg[n:]):
+                        raise Skip()     # whether the defaults run before the arity error is reported is not documented
                     raise Throw(ERR)
-                # trailing defaults, evaluated in the call scope before any parameter is bound
-                k = 0
-                for p in params:
-                    if p[0] == "pd":
-                        k += 1
-                        if k > n - nreq:
-                            vals.append(self.ev(p[2], ee))
+                bound = vals + [self.ev(p[2], ee) for p in tg[n:]]
+                for p, v in zip(tg, bound):
+                    ee.declare(p[1], v)
+                if splat:
+                    ee.declare(params[splat[0]][1], [])
+            elif not splat:
+                if n != k:
+                    raise Throw(ERR)
                 for p, v in zip(params, vals):
                     ee.declare(p[1], v)
             else:
                 s = splat[0]
                 after = len(params) - s - 1
-                if any(p[0] == "pd" for p in params):
-                    raise Skip()
-                if n < s + after:
-                    raise Throw(ERR)
                 for p, v in zip(params[:s], vals[:s]):
                     ee.declare(p[1], v)
                 ee.declare(params[s][1], vals[s:n - after])
@@ -679,6 +712,12 @@ def render(e):
         return "(throw %s)" % render(e[1])
     if t == "try":
         return "(try %s catch %s -> %s)" % (render(e[1]), e[2], render(e[3]))
+    if t == "switch":
+        def rp(p):
+            if p[0] == "plistl":
+                return "[%s]" % ", ".join(list(p[1]) + [str(p[2])])
+            return str(p[1]) if p[0] == "plit" else (p[1] if p[0] == "pname" else ("_" if p[0] == "pwild" else "[%s]" % ", ".join(p[1])))
+        return "(switch (%s) %s)" % (render(e[1]), " ".join("case %s -> %s" % (rp(p), render(b)) for p, b in e[2]))
     if t in ("and", "or", "coalesce"):
         return "(%s %s %s)" % (render(e[1]), t, render(e[2]))
     if t == "lambda":
